@@ -1,6 +1,7 @@
 import OmplModel.Proofs.SpaceInterpExamples
 import OmplModel.Proofs.SpaceInterpCompoundGeo
 import OmplModel.Proofs.SpaceInterpSeamFree
+import OmplModel.Proofs.SpaceInterpMobiusSeam
 /-!
 C07: side conditions of the non-vacuity examples for the SO(3) geodesic theorems and the seam-free
 Mobius/Klein re-parameterisation (orthogonal unit quaternions: dq = 0, θ = π/2; the parameters are
@@ -72,5 +73,29 @@ theorem nested3_outsideBand : so3OutsideBand nested3 nested3A nested3B (2 / 3) :
 /-- 0 and 1 are SO(2) values in bounds -/
 theorem one_inB : so2InB (1 : ℝ) = true := by
   rw [so2InB_iff]; constructor <;> linarith [pi_gt_three]
+
+/-- the pair 3, -3 is across the Mobius seam: `|Δu| = 6 > π` -/
+theorem three_seam : ¬ |(-3 : ℝ) - 3| ≤ π := by
+  rw [show ((-3 : ℝ) - 3) = -6 by norm_num, abs_neg, abs_of_pos (by norm_num : (0 : ℝ) < 6)]
+  linarith [pi_lt_four]
+
+/-- a compound with a Mobius strip (states across its seam) and SE(3): weights 1, 2 -/
+noncomputable def mobSp : Space ℝ := .ccons 1 (.mobius 1 2) (.ccons 2 se3 .cnil)
+noncomputable def mobA : St ℝ :=
+  .ccons (.ccons (.so2 3) (.ccons (.rv [1]) .cnil)) (.ccons se3A .cnil)
+noncomputable def mobB : St ℝ :=
+  .ccons (.ccons (.so2 (-3)) (.ccons (.rv [-1]) .cnil)) (.ccons se3B .cnil)
+
+theorem mobSp_ok : reparamOk4 mobSp = true := by simp [mobSp, reparamOk4, se3]
+theorem mobA_wt : wellTyped mobSp mobA = true := by simp [mobSp, mobA, wellTyped, se3A_wt]
+theorem mobB_wt : wellTyped mobSp mobB = true := by simp [mobSp, mobB, wellTyped, se3B_wt]
+theorem mobA_inB : inBounds mobSp mobA = true := by
+  simp only [mobSp, mobA, inBounds, rvInB, three_inB.1, se3A_inB, dblEps_eq]; norm_num
+theorem mobB_inB : inBounds mobSp mobB = true := by
+  simp only [mobSp, mobB, inBounds, rvInB, three_inB.2, se3B_inB, dblEps_eq]; norm_num
+theorem mobB_unit : unitQuats mobSp mobB := by
+  simp only [mobSp, mobB, unitQuats]; exact ⟨trivial, se3B_unit, trivial⟩
+theorem mob_reparamOk : so3ReparamOk mobSp mobA mobB (1 / 3) := by
+  simp only [mobSp, mobA, mobB, so3ReparamOk]; exact ⟨trivial, se3_reparamOk, trivial⟩
 
 end OmplModel.SpaceInterp.Ex
